@@ -215,7 +215,10 @@ func (stmt *fileStmt) query(values []string) (driver.Rows, error) {
 
 	q := queryparser.ReplacePlaceholders(stmt.q, values)
 
-	qq := convert.ToQuery(q)
+	qq, err := convert.ToQuery(q)
+	if err != nil {
+		return nil, err
+	}
 
 	result, err := stmt.c.idx.Execute(qq)
 	if err != nil {
